@@ -86,6 +86,13 @@ pub fn pattern_case() -> impl Strategy<Value = PatternCase> {
         })
 }
 
+/// Ready-made strategy for `vc-graph/src/bin/c01.rs`: the built model as a self-contained
+/// `GraphCase::Fixed` (shrinking still happens on the underlying `PatternCase`, and a saved replay file keeps
+/// its meaning when the templates evolve).
+pub fn pattern_graph_case() -> impl Strategy<Value = vc_onnxgen::grammar::GraphCase> {
+    pattern_case().prop_map(|pc| vc_onnxgen::grammar::GraphCase::Fixed(Box::new(build_pattern(&pc))))
+}
+
 /// Same as `pattern_case` but restricted to one template (development aid).
 pub fn pattern_case_for(template_index: usize) -> impl Strategy<Value = PatternCase> {
     pattern_case().prop_map(move |mut c| {
@@ -164,6 +171,10 @@ pub(crate) struct G<'a> {
     pub extra_outs: Vec<Vid>,
     /// dims (bit d) of subsequently declared graph inputs that are fixed regardless of the case's `sym` mask
     pub fixed_dims: u8,
+    /// names of the template's knobs (index = knob number)
+    names: &'static [&'static str],
+    /// knobs that were read with a non-canonical value, as `<name>` (two-valued) or `<name><choice>`
+    active: std::cell::RefCell<std::collections::BTreeSet<String>>,
 }
 
 pub(crate) const SIZES: [usize; 32] = [2, 3, 5, 2, 3, 5, 1, 2, 3, 4, 2, 3, 5, 1, 2, 3, 2, 3, 5, 2, 3, 4, 1, 2, 3, 5, 2, 3, 1, 2, 3, 0];
@@ -184,7 +195,21 @@ impl<'a> G<'a> {
             inters: Vec::new(),
             extra_outs: Vec::new(),
             fixed_dims: 0,
+            names: &[],
+            active: Default::default(),
         }
+    }
+
+    /// Declare the template's knobs (sets `nk`).
+    pub fn knobs(&mut self, names: &'static [&'static str]) {
+        self.names = names;
+        self.nk = names.len();
+    }
+
+    /// `@pattern=<Template>;knobs=<sorted active knob names joined by +>`
+    fn tag(&self) -> String {
+        let active: Vec<String> = self.active.borrow().iter().cloned().collect();
+        format!("@pattern={};knobs={}", template_name(template_index(self.c)), active.join("+"))
     }
 
     // ----- knobs -----
@@ -205,7 +230,10 @@ impl<'a> G<'a> {
         if v == 0 || n <= 1 {
             0
         } else {
-            1 + ((v - 1) * (n - 1)) / 255
+            let c = 1 + ((v - 1) * (n - 1)) / 255;
+            let name = self.names.get(i).copied().unwrap_or("knob");
+            self.active.borrow_mut().insert(if n > 2 { format!("{name}{c}") } else { name.to_string() });
+            c
         }
     }
 
@@ -667,7 +695,9 @@ impl<'a> G<'a> {
                 }
             }
         }
-        let op_types = self.nodes.iter().map(|n| n.op.clone()).collect();
+        // first entry: the tag that c01.rs appends to violation signatures
+        let mut op_types: Vec<String> = vec![self.tag()];
+        op_types.extend(self.nodes.iter().map(|n| n.op.clone()));
         let graph = GraphDef { nodes: self.nodes, initializers: self.inits, inputs: self.g_inputs, outputs, value_info };
         Built {
             model: ModelDef::new(graph),
